@@ -21,7 +21,7 @@ set_option linter.unusedVariables false
 open Matrix
 
 namespace GT.C03
-open GT ND
+open GT GT.Act GT.Act.ND
 
 variable {K : Type} [Field K] {n k : ℕ}
 
